@@ -31,11 +31,13 @@ package main
 //@   ensures closedB == old(closedB) ++ seq1(self)
 
 //@ func (*BackendChangeListenerMgr).HandleBackendAdded
+//@   srequires nn-backend: nonNil(backend)
 //@   trusted call-event ghost bmAdds; listener fan-out verified separately
 //@   modifies bmAdds
 //@   ensures bmAdds == old(bmAdds) ++ seq1(backend)
 
 //@ func (*BackendChangeListenerMgr).HandleBackendRemoved
+//@   srequires nn-backend: nonNil(backend)
 //@   trusted call-event ghost bmRemoves; listener fan-out verified separately
 //@   modifies bmRemoves
 //@   ensures bmRemoves == old(bmRemoves) ++ seq1(backend)
@@ -102,6 +104,7 @@ package main
 //@   ensures forall k string :: !has(result.backends, k)
 
 //@ func (*DialogBasedBackend).GetBackend
+//@   sensures nn: err == nil ==> nonNil(result)
 //@   props C15 C04
 //@   event lookups: dialog
 //@   revent gbOk: err == nil
@@ -139,6 +142,7 @@ package main
 //@     invariant forall k string :: old(has(dbb.backends, k)) && old(dbb.backends[k]).expire < old(now) ==> has(expiredDialogs, k)
 
 //@ func (*DialogBasedBackend).AddBackend
+//@   srequires nn-backend: nonNil(backend)
 //@   props C15 C04
 //@   requires dbb.timeout >= 0
 //@   modifies mapof(dbb.backends), dbb.nextCleanTime, now
@@ -309,12 +313,15 @@ package main
 // ---- the proxy's event loop: membership events update the address index (C19) ----
 // (the three message handlers are summarised by their static mod sets here; their own contracts follow below)
 //@ func (*Proxy).handleRawMessage
+//@   sensures rf: nonNil(result.ReceivedFrom)
+//@   sensures nn: result != nil
 //@   props C07
 //@   ensures returns-message: result == rawMessage.Message && err == nil
 //@   ensures stamp-when-enabled: rawMessage.Message.request != nil && rawMessage.ReceivedSupport ==>
 //@        stamps == old(stamps) ++ seq1(rawMessage.Message) && stampAddr == old(stampAddr) ++ seq1(rawMessage.PeerAddr) && stampPort == old(stampPort) ++ seq1(rawMessage.PeerPort)
 //@   ensures no-stamp-otherwise: !(rawMessage.Message.request != nil && rawMessage.ReceivedSupport) ==> stamps == old(stamps) && stampAddr == old(stampAddr) && stampPort == old(stampPort)
 //@ func (*Proxy).HandleMessage
+//@   srequires rf: nonNil(msg.ReceivedFrom)
 //@   props C02 C03 C06
 //@   ensures r-pop: msg.request == nil ==> popvias == old(popvias) ++ seq1(msg)
 //@   ensures r-at-most-one: msg.request == nil ==> len(smMsg) <= len(old(smMsg)) + 1 && len(smMsg) >= len(old(smMsg)) && stb == old(stb)
@@ -425,6 +432,7 @@ package main
 // firstIdx(hs, n): index of the first header of list hs named n up to spelling (canonName), or -1.
 
 //@ func (*Message).GetHeader
+//@   sensures nn: err == nil ==> result != nil
 //@   props C02 C06 C07 C13 C01
 //@   modifies nothing
 //@   ensures found: firstIdx(m.headers, name) >= 0 ==> err == nil && result == m.headers[firstIdx(m.headers, name)]
@@ -1040,6 +1048,8 @@ package main
 //@        && result == asRef(m.headers[firstIdx(m.headers, "CSeq")].value, "*CSeq").Method + "-" + kvGet(asRef(m.headers[firstIdx(m.headers, "Via")].value, "*Via").params[0].Params, "branch")
 
 //@ func (*Proxy).findBackendByDialog
+//@   sensures nn-tr: !isNil(result1) ==> nonNil(result1)
+//@   sensures nn: err == nil ==> nonNil(result0)
 //@   props C04 C15
 //@   revent fbdOk: err == nil
 //@   revent fbdBackend: result0
@@ -1074,6 +1084,7 @@ package main
 //@   ensures at-most-one-send: len(sends) <= len(old(sends)) + 1 && len(sends) >= len(old(sends))
 
 //@ func (*Proxy).getBackendOfResponse
+//@   sensures nn: err == nil ==> nonNil(result)
 //@   props C04 C19
 //@   event gborAddr: addr
 //@   revent gborOk: err == nil
@@ -1173,13 +1184,33 @@ package main
 //@ fieldassume RouteParam.nameAddr: $v != nil
 //@ fieldassume RecRoute.nameAddr: $v != nil
 //@ fieldassume ByteArrayPool.arraySize: 0 <= $v && $v <= 65536
-//@ fieldassume UDPServerTransport.msgHandler: $v != nil
-//@ fieldassume TCPServerTransport.msgHandler: $v != nil
-//@ fieldassume TCPServerTransport.connAcceptedListener: $v != nil
+//@ fieldassume UDPServerTransport.msgHandler: nonNil($v)
+//@ fieldassume TCPServerTransport.msgHandler: nonNil($v)
+//@ fieldassume TCPServerTransport.connAcceptedListener: nonNil($v)
 //@ fieldassume TCPBackend.connectionEstablished: $v != nil
 //@ fieldassume RawMessage.Message: $v != nil
-//@ fieldassume RawMessage.From: $v != nil
+//@ fieldassume RawMessage.From: nonNil($v)
 // configuration invariant: a service item has at least one listener (not established when both ports are 0
 // or the UDP bind address is invalid - a configuration-only panic, outside network reach)
 //@ fieldassume ProxyItem.transports: len($v) >= 1
 //@ fieldassume UDPServerTransport.conn: $v != nil
+
+// ---- safety-mode (C08) invariants and contracts: proved and used in safety mode only ----
+//@ safetyinv ExpireBackend.backend: nonNil($v)
+//@ safetyinv BackendWithParent.backend: nonNil($v)
+//@ safetyinv BackendChangeEvent.backend: nonNil($v)
+//@ func (*Proxy).HandleBackendAdded
+//@   srequires nn-backend: nonNil(backend)
+
+//@ func (*Proxy).HandleBackendRemoved
+//@   srequires nn-backend: nonNil(backend)
+
+//@ iface BackendChangeListener.HandleBackendAdded
+//@   srequires nn-backend: nonNil(backend)
+
+//@ iface BackendChangeListener.HandleBackendRemoved
+//@   srequires nn-backend: nonNil(backend)
+
+//@ func ParseMessage
+//@   sensures nn: err == nil ==> result != nil
+
